@@ -160,13 +160,40 @@ CHECKS = {
     "C16": {
         "pre_cmds": ["./build.sh race"],
         "suites": [{"suite": "race", "bin": "./bin/rvharness_race", "race": True, "n_quick": 24, "n_thorough": 400, "shards": 8, "shards_thorough": 16,
-                    "eval": "true"}],
+                    "eval": "true"},
+                   {"suite": "place", "n_quick": 32, "n_thorough": 800, "shards": 4, "shards_thorough": 16, "eval": "true"}],
         "monitor_props": ["C16"],
         "lockset_query": True,
-        "rule": "race suite (binary built with -race): on one real node, two goroutines submit transactions (including one transaction three times), one issues queries (pool, blocks, outputs, timestamps, registration), one produces blocks, one runs sync rounds against a second real node that produces competing blocks, one refreshes the registry, for 40-80 ms; at quiescence the chain monitors (C01-C04, C07, C10) run and admitted transactions are counted in chain + pool; any race-detector report is a violation. The static part regenerates the access table and lock-order edges from the source on every run; distinct by (blocks, submissions, pool size)",
+        "rule": "race suite (binary built with -race): on one real node, two goroutines submit transactions (including one transaction three times), one issues queries (pool, blocks, outputs, timestamps, registration), one produces blocks, one runs sync rounds against a second real node that produces competing blocks, one refreshes the registry, for 40-80 ms; at quiescence the chain monitors (C01-C04, C07, C10) run and admitted transactions are counted in chain + pool; any race-detector report is a violation. The place suite puts one operation inside another deterministically, by wrapping the injected collaborators: a submission while a production tick is at its AddBlock call (the admitted transaction must be found exactly once in chain + pool), and a production tick while a sync round is between verification and commit (the quiescent state must satisfy C01-C07). The static part regenerates the access table and lock-order edges from the source on every run; distinct by (blocks, submissions, pool size)",
         "trusted_base": ["tools/genlockset (syntactic go/ast translator; rules in DESIGN.md 3.13: receiver-field accesses, locks held by statement order, defer-unlock holds to the end, inlining of calls on the receiver and on collaborator fields, goroutines run without the caller's locks, element stores through a local alias count as writes)",
                          "the Go memory model is not formalised: the theorem is a lock discipline over an abstract reader/writer mutex semantics; the race detector and stress runs are search tools"],
         "assumptions": ["entry points = exported methods of Blockchain, TransactionsPool, UtxosRegistry, AddressesRegistry, Neighborhood, Engine; each engine-driven method does not overlap with itself",
                         "operation-level interleavings (stale reads between a collaborator call and the commit) are not covered by a theorem: partial; the stress run checks the quiescent state"],
+    },
+    "C15": {
+        "suites": [{"suite": "wire", "n_quick": 96, "n_thorough": 2400, "shards": 8, "shards_thorough": 16}],
+        "monitor_props": ["C15"],
+        "rule": "wire suite: (a) every block of real chains (real transactions, registry removals) served by a node is compared byte for byte with the model's printer and hash for hash / id for id with the model's SHA-256; (b) JSON text is fed to the real decoders and to the model's decoders (through a JSON reader in the OCaml glue): synthetic transactions with empty/absent lists, extreme integers, non-ASCII / HTML-special / control characters in addresses, upper-case hex, leading-zero signatures, unknown, reordered, case-varied and duplicated keys, wrong ids; block lists mutated at every schema position with every fault kind; accept/reject and the re-encoded bytes must agree; (c) monitors: decode/encode stability, same id and hash after a round trip, 'has a reward' iff no input; (d) every eighth case serves the node through the real Host over loopback TCP (golang-p2p) and asks all seven endpoints through the real client. The endpoint binding table is regenerated from source (tools/genendpoints) and checked by C15_endpoints. distinct by JSON text",
+        "trusted_base": ["bytes <-> JSON tree: Go's lexer on one side, ocaml/jsonp.ml on the other (tested against each other, not proved)", "crypto.UnmarshalPubkey (on-curve test) is an oracle", "golang-p2p framing (gob, RSA/AES handshake) is exercised end to end, not modelled",
+                         "tools/genendpoints (syntactic go/ast translator of node.go, host.go, neighbor.go)"],
+        "assumptions": ["'different fields => different ids' is modulo a collision of SHA-256 (C15_id_binds states the disjunction)", "strings are valid UTF-8 (Go's decoder guarantees it for decoded values)"],
+    },
+    "C05": {
+        "suites": [{"suite": "accept", "n_quick": 160, "n_thorough": 4000, "shards": 8, "shards_thorough": 16}],
+        "monitor_props": ["C05"],
+        "mismatch_kinds": ["update", "validate", "admit", "regsync"],
+        "rule": "accept suite: a real producer whose pool holds anything an honest pool may hold (spends of confirmed, last-block and same-pool outputs, boundary fees and dates, yielding outputs to registered, new and just-removed addresses) produces a block; three real peers that hold the same chain receive it as an extension of their tip, as a competitor to their own tip produced on the same tick, and in a full re-sync from an unrelated short chain; the monitor requires the producer's answer to pass verification in each context; the peers' whole lives are recorded and compared with the model; distinct by (context, spend kind, outcome, pool contents)",
+        "trusted_base": CHAIN_TB,
+        "assumptions": ["'accepted' = the candidate passes verification (whether it is then selected is C06's tie-break)",
+                        "two situations are known findings: a block spending an output of the immediately preceding block (rejected as an extension and in a re-sync) and a block in which a transaction spends an output of an earlier transaction of the same block (rejected everywhere)"],
+    },
+    "C14": {
+        "suites": [{"suite": "crash", "n_quick": 48, "n_thorough": 1600, "shards": 8, "shards_thorough": 16},
+                   {"suite": "chain", "mode": "mixed", "args": "-mode mixed", "n_quick": 64, "n_thorough": 1600, "shards": 8, "shards_thorough": 16, "seed_off": 14},
+                   {"suite": "faults", "n_quick": 16, "n_thorough": 400, "shards": 4, "shards_thorough": 16, "seed_off": 14}],
+        "monitor_props": ["C14"],
+        "rule": "crash suite: a valid transaction request, a valid chain (as a neighbor's sync answer) and a validator's utxo answer are mutated at every schema position with 14 fault kinds (null, absent, empty list/object, wrong types, negative, 2^64, 2^64-1, -2^63, float, list of null, nested null), ids recomputed in 4 cases of 5 so the message passes integrity checks, and fed to the real validator handlers, to a sync round, and to the access-node controllers (as validator answers and as request bodies); after each message the operations that later touch stored data run (production, admission, queries); fixed probes null, {}, [], \"\", 0 on every endpoint. The chain and faults suites add multi-step histories (re-spends of partially spent transactions, candidates broken at any position): a panic anywhere ends the harness process and is reported with the input being tried. distinct by (target, position, fault kind)",
+        "trusted_base": ["Go's JSON lexer, golang-p2p framing and gin are not modelled; a panic inside gin-served handlers would be recovered in production (the harness calls the controllers directly and reports it)"],
+        "assumptions": ["the blocks page size is a sane setting (page + chain length <= 2^64): otherwise Blocks panics on its slice bounds (C08)"],
     },
 }
